@@ -223,8 +223,10 @@ CHECK_DEADLOCK FALSE
 		if c.Thorough {
 			ladderDepth = 400
 		}
-		if err := ladderCheck(c, ladderDepth); err != nil {
-			return err
+		for kind := range ladderKinds {
+			if err := ladderCheck(c, ladderDepth, kind, false); err != nil {
+				return err
+			}
 		}
 		nbp := 70000
 		if c.Thorough {
